@@ -43,6 +43,9 @@ type G struct {
 	name        string
 	// locks held: sections under a read lock only run concurrently with each other
 	rlocks, xlocks int
+	// zero-duration timers requested in a row at one instant (spin guard)
+	zeroTimerAt int64
+	zeroTimers  int
 }
 
 type Chan struct {
